@@ -163,6 +163,15 @@ class Grammar:
             name = e['p']
             if name in env:
                 return {'op': 'param', 'name': name, 'l': ln}
+            # a local that merely names a parser expression: `let at_end = all_consuming(..); .. alt((at_end, other))`
+            ll = getattr(fn, 'local_lets', None)
+            if ll and name in ll and ll[name] is not None:
+                init_ = ll[name]
+                ll[name] = None            # no recursion through the same name
+                try:
+                    return self.pexpr(init_, fn, env)
+                finally:
+                    ll[name] = init_
             last = name.split('::')[-1]
             if name in self.fns and self.fns[name].kind == 'parser':
                 return {'op': 'ref', 'name': name, 'l': ln}
@@ -392,8 +401,17 @@ class Grammar:
         nolet_arg = {}
         spans = {fn.span_param}
         tail = None
+        if getattr(rep, 'local_lets', None) is None:
+            rep.local_lets = {}
         for i, st in enumerate(stmts):
             last = i == len(stmts) - 1
+            if st['k'] == 'let' and 'init' in st and 'else' not in st and st['pat'].get('k') == 'ident' and st['init'].get('k') == 'call' \
+                    and sx.is_path(st['init']['f']) and not (st['init']['f']['p'] in self.fns and self.fns[st['init']['f']['p']].kind == 'parser'):
+                # `let p = <combinator expression>;` — a named parser, used further down in place of the expression
+                pe_ = self.pexpr(st['init'], rep, env)
+                if not any(n_.get('op') == 'unmodelled' for n_ in iter_ir(pe_)):
+                    rep.local_lets[st['pat']['n']] = st['init']
+                    continue
             b = self._bind(st, None, rep, env)
             if b is not None:
                 news, pat, f, arg = b
